@@ -405,4 +405,141 @@ theorem C13_after_return_nothing_ever_starts (P : Program) (cs : List Choice) (s
     AllMarked s' ∧ s'.tasks.length = s.tasks.length ∧ ∀ o ∈ obs, o.isEnding = true :=
   allMarked_run P cs s s' obs h hr
 
+
+/-! ### A bounded drain (all programs): after the end every task runs at most one more section -/
+
+/-- a finished task is never stepped again (every program, every state) -/
+theorem C13_finished_task_is_never_stepped (P : Program) (s : St) (t : Nat) (tk : Task) (ord : List Node) (pick : Nat)
+    (h : s.tasks[t]? = some tk) (hd : tk.isDone = true) : step P s (.run t ord pick) = none := by
+  simp only [step, stepTask, h]
+  cases hst : tk.st with
+  | done r => rfl
+  | runnable rv => simp [Task.isDone, hst] at hd
+  | blocked w => simp [Task.isDone, hst] at hd
+
+theorem isDone_map (l : List Task) (f : Task → Task) (hf : ∀ tk, (f tk).isDone = tk.isDone) (i : Nat) :
+    ((l.map f)[i]?).map Task.isDone = (l[i]?).map Task.isDone := by
+  simp only [List.getElem?_map, Option.map_map]
+  cases l[i]? <;> simp [hf]
+
+theorem isDone_notify (s : St) (k : Key) (i : Nat) :
+    ((notify s k).tasks[i]?).map Task.isDone = (s.tasks[i]?).map Task.isDone :=
+  isDone_map _ _ (fun tk => wakeIf_isDone _ tk) i
+
+theorem isDone_setEvent (s : St) (n : Node) (i : Nat) :
+    ((setEvent s n).tasks[i]?).map Task.isDone = (s.tasks[i]?).map Task.isDone :=
+  isDone_map _ _ (fun tk => wakeIf_isDone _ tk) i
+
+theorem isDone_notifyAll (s : St) (ks : List Key) (i : Nat) :
+    ((notifyAll s ks).tasks[i]?).map Task.isDone = (s.tasks[i]?).map Task.isDone := by
+  induction ks generalizing s with
+  | nil => rfl
+  | cons k ks ih => simp only [notifyAll, List.foldl_cons]; rw [← isDone_notify s k i]; exact ih _
+
+theorem isDone_unwindFrames (P : Program) (s : St) (fs : List Frame) (i : Nat) :
+    ((unwindFrames P s fs).tasks[i]?).map Task.isDone = (s.tasks[i]?).map Task.isDone := by
+  induction fs generalizing s with
+  | nil => rfl
+  | cons f fs ih =>
+    cases f <;> simp only [unwindFrames, ih]
+    split
+    · rfl
+    · simp only [nodeFinally]
+      split
+      · rw [isDone_notify, isDone_setEvent]
+      · rw [isDone_notify, isDone_notify, isDone_notifyAll, isDone_setEvent]
+
+theorem isDone_cancelled (tk : Task) : (cancelled tk).isDone = tk.isDone := by
+  unfold cancelled Task.isDone
+  cases h : tk.st <;> simp [h]
+
+theorem isDone_cancelTask (s : St) (t i : Nat) :
+    ((cancelTask s t).tasks[i]?).map Task.isDone = (s.tasks[i]?).map Task.isDone := by
+  rw [cancelTask_tasks]
+  cases h : s.tasks[t]? with
+  | none => rfl
+  | some tk =>
+    simp only []
+    by_cases hit : i = t
+    · subst hit
+      have hlt : i < s.tasks.length := getElem?_lt h
+      rw [List.getElem?_set_self hlt, h]
+      simp [isDone_cancelled]
+    · rw [List.getElem?_set_ne (Ne.symm hit)]
+
+theorem isDone_cancelTasks (ts : List Nat) : ∀ (s : St) (i : Nat),
+    ((cancelTasks s ts).tasks[i]?).map Task.isDone = (s.tasks[i]?).map Task.isDone := by
+  induction ts with
+  | nil => intro s i; rfl
+  | cons t ts ih => intro s i; simp only [cancelTasks, List.foldl_cons]; rw [← isDone_cancelTask s t i]; exact ih _ _
+
+/-- `endTask` finishes the current task and leaves the others as they are -/
+theorem endTask_done (c : Ctx) (s : St) (obs : List Obs) (r : TaskRes) (tk : Task) (h : s.tasks[c.t]? = some tk) :
+    (∃ tk' : Task, (endTask c s obs r).1.tasks[c.t]? = some tk' ∧ tk'.isDone = true) ∧
+    ∀ i, i ≠ c.t → (endTask c s obs r).1.tasks[i]? = s.tasks[i]? := by
+  have hlt : c.t < s.tasks.length := getElem?_lt h
+  simp only [endTask, h]
+  refine ⟨⟨{ tk with frames := [], st := .done r, mustCancel := false }, ?_, by simp [Task.isDone]⟩, ?_⟩
+  · simp only [St.setTask]; rw [List.getElem?_set_self hlt]
+  · intro i hi
+    simp only [St.setTask]; rw [List.getElem?_set_ne (Ne.symm hi)]
+
+/-- **after the end, a section finishes its task** (all programs): in a state in which every task is finished or
+cancel-marked, the section of task `t` ends `t`, and every task that was finished stays finished -/
+theorem C13_section_after_the_end_finishes_its_task (P : Program) (s : St) (h : AllMarked s) (t : Nat) (ord : List Node)
+    (pick : Nat) (out : Out) (hs : step P s (.run t ord pick) = some out) :
+    (∃ tk' : Task, out.1.tasks[t]? = some tk' ∧ tk'.isDone = true) ∧
+    (∀ (i : Nat) (tk : Task), s.tasks[i]? = some tk → tk.isDone = true →
+      ∃ tk' : Task, out.1.tasks[i]? = some tk' ∧ tk'.isDone = true) := by
+  simp only [step, stepTask] at hs
+  split at hs
+  · cases hs
+  · next tk htk =>
+    split at hs
+    · next rv hst =>
+      have hm := h t tk trivial htk
+      simp only [Task.marked, Task.isDone, hst, Bool.false_or] at hm
+      simp only [hm, if_true] at hs
+      obtain rfl := Option.some.inj hs
+      -- every way `deliverCancel` ends: endTask on a state whose tasks are `s`'s up to wake-ups and cancellations
+      have key : ∀ (s0 : St) (obs0 : List Obs), (∀ i : Nat, (s0.tasks[i]?).map Task.isDone = (s.tasks[i]?).map Task.isDone) →
+          ∀ (fin : St → St), (∀ x, (fin x).tasks = x.tasks) →
+          (∃ tk' : Task, (fin (endTask { P := P, t := t, ord := ord, pick := pick } s0 obs0 .cancelled).1).tasks[t]? = some tk' ∧
+            tk'.isDone = true) ∧
+          (∀ (i : Nat) (tk0 : Task), s.tasks[i]? = some tk0 → tk0.isDone = true →
+            ∃ tk' : Task, (fin (endTask { P := P, t := t, ord := ord, pick := pick } s0 obs0 .cancelled).1).tasks[i]? = some tk' ∧
+              tk'.isDone = true) := by
+        intro s0 obs0 hsame fin hfin
+        have h0 : ∃ tk0, s0.tasks[t]? = some tk0 := by
+          have := hsame t
+          rw [htk] at this
+          cases hx : s0.tasks[t]? with
+          | none => simp [hx] at this
+          | some x => exact ⟨x, rfl⟩
+        obtain ⟨tk0, htk0⟩ := h0
+        obtain ⟨a, b⟩ := endTask_done { P := P, t := t, ord := ord, pick := pick } s0 obs0 .cancelled tk0 htk0
+        rw [hfin]
+        refine ⟨a, ?_⟩
+        intro i tki hi hdi
+        by_cases hit : i = t
+        · subst hit; exact a
+        · rw [b i hit]
+          have := hsame i
+          rw [hi] at this
+          cases hx : s0.tasks[i]? with
+          | none => simp [hx] at this
+          | some x =>
+            simp only [hx, Option.map_some, Option.some.injEq] at this
+            exact ⟨x, rfl, by rw [this]; exact hdi⟩
+      unfold deliverCancel
+      split
+      · exact key s _ (fun _ => rfl) (fun x => x.setOutcome .cancelled) (fun _ => rfl)
+      · exact key s _ (fun _ => rfl) (fun x => x.setOutcome .cancelled) (fun _ => rfl)
+      · exact key _ _ (fun i => isDone_cancelTasks _ _ i) (fun x => x.setOutcome .cancelled) (fun _ => rfl)
+      · exact key s _ (fun _ => rfl) (fun x => x.setOutcome .cancelled) (fun _ => rfl)
+      · simp only [raiseOut]
+        exact key _ _ (fun i => isDone_unwindFrames P s tk.frames i) id (fun _ => rfl)
+    · cases hs
+
+
 end MLPE.Eng
